@@ -321,18 +321,26 @@ func judge(c *vkit.Ctx, w *workload, h *recorder, path string, in map[string]any
 }
 
 func checkC06(c *vkit.Ctx) {
-	c.P.Rule = "case = (workload, schedule): 2-5 task goroutines, each one test execution (some re-executed) with 1-3 Match* calls of kind create/match/mismatch/update (MatchSnapshot/JSON/YAML) on one shared pre-populated file (half of the JSON documents handed over as Go values, values of a slot mostly of equal length so that rewrites keep the file size), some with snaps.Skip and standalone calls, one Config shared by all tasks (in half of the workloads the odd-numbered tasks reach the directory through a symbolic link and share a second Config); token mode: the real code built from an AST-instrumented overlay of the current sources yields at every file-system/lock operation and a controller grants one task at a time under a seeded strategy (PCT-style priorities with <=3 change points, uniform random, the two-cut family Y^j X^k Y* X* over task pairs, and site-cuts `Y until parked at its n-th <operation>, X until parked at its m-th <operation>, Y*, X*` over 13 operation classes); every grant list is recorded and replayable; oracle: porcupine linearizability check of the recorded call/return history plus one final-read per slot against a sequential slot-store model (partitioned by slot), independent reader on the final file (torn/unexpected/duplicate entries), deadlock detection; free mode (every run, built with -race): the same workloads run unscheduled with seeded random delays at the same points, race reports are counted; non-trivial = schedule with >=1 context switch between another task's file read and its file write (window hit) ; distinct by hash(workload, grant list)"
+	c.P.Rule = "case = (workload, schedule): 2-5 task goroutines, each one test execution (some re-executed) with 1-3 Match* calls of kind create/match/mismatch/update (MatchSnapshot/JSON/YAML) on one shared pre-populated file (half of the JSON documents handed over as Go values, values of a slot mostly of equal length so that rewrites keep the file size), some with snaps.Skip and standalone calls, one Config shared by all tasks (in half of the workloads the odd-numbered tasks reach the directory through a symbolic link and share a second Config); token mode: the real code built from an AST-instrumented overlay of the current sources yields at every file-system/lock operation and a controller grants one task at a time under a seeded strategy (PCT-style priorities with <=3 change points, uniform random, the two-cut family Y^j X^k Y* X* over task pairs, and site-cuts `Y until parked at its n-th <operation>, X until parked at its m-th <operation>, Y*, X*` over 13 operation classes); every grant list is recorded and replayable; oracle: porcupine linearizability check of the recorded call/return history plus one final-read per slot against a sequential slot-store model (partitioned by slot), independent reader on the final file (torn/unexpected/duplicate entries), deadlock detection; a third group of workers runs a -trimpath build of this engine, where the odd-numbered tasks spell the directory relative to the working directory and the others absolute (token schedules, then free-running); free mode (every run, built with -race): the same workloads run unscheduled with seeded random delays at the same points, race reports are counted; non-trivial = schedule with >=1 context switch between another task's file read and its file write (window hit) ; distinct by hash(workload, grant list)"
 	c.P.Assumptions = []string{"the instrumenter only adds yield points (syntactic); sites reached are reported", "in token mode the hand-off channels order every step, so data races are looked for only in free mode"}
 	if os.Getenv("VERIF_RACE_BUILD") == "1" {
 		freeMode(c)
 		return
 	}
 	n := c.N(4000, 600000)
+	if trimPart {
+		// the -trimpath build of this engine: fewer schedules, then free-running workloads
+		n = c.N(800, 60000)
+		c.Count("trimpath_build_of_the_engine", 1)
+	}
 	for i := 0; i < n; i++ {
 		if !c.Mine(i) {
 			continue
 		}
 		c.Guard(i, func() { tokenCase(c, i) })
+	}
+	if trimPart {
+		freeMode(c)
 	}
 }
 
@@ -341,16 +349,23 @@ var cutSites = []string{"os.ReadFile", "RLock", "_m.Lock", "os.OpenFile", "f.Sta
 
 var (
 	linkMu   sync.Mutex
-	linkCfgs = map[string]*snaps.Config{} // root -> shared Config that goes through root-link
+	linkCfgs = map[string]*snaps.Config{} // root -> shared Config that goes through the second spelling
+	linkDirs = map[string]string{}        // root -> second spelling of the directory
+	// trimPart: this binary was built with -trimpath (VERIF_PART=trim): the library then takes a
+	// relative Dir as relative to the working directory, which gives every directory a relative
+	// and an absolute spelling
+	trimPart = os.Getenv("VERIF_PART") == "trim"
 )
 
 // dirFor: the directory spelling task client uses.
 func dirFor(root string, client int) (string, *snaps.Config) {
 	linkMu.Lock()
 	lc := linkCfgs[root]
+	second := linkDirs[root]
 	linkMu.Unlock()
+	_ = second
 	if lc != nil && client%2 == 1 {
-		return root + "-link", lc
+		return second, lc
 	}
 	return root, nil
 }
@@ -358,6 +373,7 @@ func dirFor(root string, client int) (string, *snaps.Config) {
 func dropLink(root string) {
 	linkMu.Lock()
 	delete(linkCfgs, root)
+	delete(linkDirs, root)
 	linkMu.Unlock()
 	os.Remove(root + "-link")
 }
@@ -367,12 +383,23 @@ func setupFile(w *workload) (root, path string, cfg *snaps.Config) {
 	path = filepath.Join(root, "shared.snap")
 	os.WriteFile(path, []byte(vkit.RenderSnapFile(w.Pre)), 0o644)
 	cfg = snaps.WithConfig(snaps.Dir(root), snaps.Filename("shared"), snaps.JSON(snaps.JSONConfig{Indent: " ", SortKeys: true}))
-	if w.Link {
+	if trimPart {
+		// the relative spelling (relative to the working directory)
+		wd, _ := os.Getwd()
+		if rel, err := filepath.Rel(wd, root); err == nil {
+			w.Link = false
+			linkMu.Lock()
+			linkDirs[root] = rel
+			linkCfgs[root] = snaps.WithConfig(snaps.Dir(rel), snaps.Filename("shared"), snaps.JSON(snaps.JSONConfig{Indent: " ", SortKeys: true}))
+			linkMu.Unlock()
+		}
+	} else if w.Link {
 		os.Remove(root + "-link")
 		if err := os.Symlink(root, root+"-link"); err != nil {
 			w.Link = false
 		} else {
 			linkMu.Lock()
+			linkDirs[root] = root + "-link"
 			linkCfgs[root] = snaps.WithConfig(snaps.Dir(root+"-link"), snaps.Filename("shared"), snaps.JSON(snaps.JSONConfig{Indent: " ", SortKeys: true}))
 			linkMu.Unlock()
 		}
